@@ -353,14 +353,16 @@ def w_header(ch: Choices, merkle_root: bytes | None = None) -> tuple[W, BlockHea
     return w, BlockHeader(version, prev, root, datetime.fromtimestamp(t, timezone.utc), bits, nonce, check_validity=False)
 
 
-def w_block(ch: Choices) -> tuple[W, Block]:
+def w_block(ch: Choices) -> tuple[W, Block, W]:
+    """(writer with witnesses, Block, writer of the stripped form)."""
     txs = [w_tx(ch, shape=ch.pick(["coinbase", "segwit-coinbase"], "blk.cb"))]
     txs += [w_tx(ch, shape=ch.pick(["legacy", "segwit"], "blk.shape")) for _ in range(ch.draw(3, "blk.ntx"))]
     wh, header = w_header(ch)
-    w = W().sub(wh).cs(len(txs))
-    for full, _, _ in txs:
+    w, stripped = W().sub(wh).cs(len(txs)), W().sub(wh).cs(len(txs))
+    for full, _, bare in txs:
         w.sub(full)
-    return w, Block(header, [t for _, t, _ in txs], check_validity=False)
+        stripped.sub(bare)
+    return w, Block(header, [t for _, t, _ in txs], check_validity=False), stripped
 
 
 def w_xkey(ch: Choices, pool: Pool) -> tuple[W, BIP32KeyData]:
@@ -707,8 +709,8 @@ def build(ch: Choices, pool: Pool, kind: str) -> Built:
         w, tx, stripped = w_tx(ch)
         return Built(codec, w.raw(), w.marks, tx, extra={"stripped": stripped.raw()})
     if kind == "Block":
-        w, block = w_block(ch)
-        return Built(codec, w.raw(), w.marks, block, valid=False)  # no proof of work
+        w, block, stripped = w_block(ch)
+        return Built(codec, w.raw(), w.marks, block, valid=False, extra={"stripped": stripped.raw()})  # no proof of work
     if kind in ("BIP32KeyData", "ecies.Envelope"):
         w, obj = (w_xkey if kind == "BIP32KeyData" else w_envelope)(ch, pool)
         return Built(codec, w.raw(), w.marks, obj)
